@@ -254,8 +254,10 @@ fn build_validation_entry_diagnostic(
             // ancestor path that has a known location so we can still render a useful snippet.
             let mut p = path_key.parent();
             while let Some(cur) = p {
-                if let Some(found) = locations.search(&cur) {
-                    return Some(found);
+                if let Some((locs, _ancestor_leaf)) = locations.search(&cur) {
+                    // Only the position comes from the ancestor: the leaf that is named
+                    // stays that of the failed field.
+                    return Some((locs, original_leaf.clone()));
                 }
                 p = cur.parent();
             }
